@@ -283,6 +283,26 @@ def correspondence(ctx, gen_ok, ho_ok=True):
         ind = np.asarray(ms._encode_cell_data()['skfem:s:s'][0])
         _, sd = ms._decode_cell_data({'skfem:s:s': [ind]})
         sub_cases.append((f'({cnat(nt)}, {cnats(s)})', f'({cNs(ind)}, {cnats(np.asarray(sd["s"]))})', ('sub', name, kk)))
+    # from_meshio on meshes whose cells are NOT in ascending vertex order: the decoder gets the slot table of the connectivity
+    # as read (= the encoder's table) but the neighbour table of the loaded (re-sorted) mesh
+    from skfem.io.meshio import from_meshio, to_meshio
+    for k in range(ctx.n(10, 40)):
+        name = ['MeshTri1', 'MeshTet1'][k % 2]
+        m = rand_mesh1(name, rng, size=[2, 3] if k % 2 == 0 else [2, 2, 2]).oriented()
+        nf = m.facets.shape[1]
+        kk = int(rng.integers(1, nf + 1))
+        f = np.sort(rng.choice(nf, size=kk, replace=False)).astype(np.int32)
+        ori = rng.integers(0, 2, size=kk)
+        ori[m.f2t[1, f] == -1] = 0
+        mt = m.with_boundaries({'x': OrientedBoundary(f, ori)})
+        M = from_meshio(to_meshio(mt))
+        data = np.asarray(mt._encode_cell_data()['skfem:b:x'][0])
+        g = M.boundaries['x']
+        go = getattr(g, 'ori', None)
+        go = [0] * len(g) if go is None else np.asarray(go).tolist()
+        ns, nt, t2f, _ = tables(mt)
+        dec_cases.append((f'({cnat(ns)}, {cnat(nt)}, {t2f}, {cmat_z(M.f2t)}, {cNs(data)})', f'({cnats(np.asarray(g))}, {cbools(go)})',
+                          ('dec-loaded', name, int(kk), int(sum(ori)))))
     # to_dict / from_dict at the level of the tag dictionaries
     def cstr(x):
         assert '"' not in x and x.isascii()
